@@ -77,4 +77,34 @@ def canon (l : List Nat) : List Nat := l.map fun x => l.idxOf x
 /-- number of distinct labels -/
 def nLabels (l : List Nat) : Nat := (l.eraseDups).length
 
+/-! ### the parameter guard and the unchecked-parameter `transform` (`TransformGuard`) -/
+
+/-- the three float predicates used by `check_ref` (`is_negative` is the sign bit: `-0.0` counts) -/
+structure FloatPreds (α : Type) where
+  isNeg : α → Bool
+  isNan : α → Bool
+  isInf : α → Bool
+
+/-- `ParamGuard::check_ref` of `HierarchicalCluster`: `NumClusters(0)` and a negative, NaN or infinite
+`Distance` are `InvalidStoppingCondition` -/
+def checkCrit {α : Type} (fp : FloatPreds α) : Crit α → Bool
+  | .num 0 => false
+  | .num _ => true
+  | .dist x => !(fp.isNeg x || fp.isNan x || fp.isInf x)
+
+/-- what `HierarchicalCluster::transform` (both the `Kernel` and the `DatasetBase<Kernel, T>` form, which
+only unwraps the records) does -/
+inductive Outcome where
+  | invalid
+  | panic
+  | ok (cl : Clusters)
+
+def transform {α : Type} [LE α] [DecidableLE α] (fp : FloatPreds α) (crit : Crit α) (n : Nat)
+    (steps : List (Step α)) : Outcome :=
+  if checkCrit fp crit then
+    match replay crit n steps with
+    | none => .panic
+    | some cl => .ok cl
+  else .invalid
+
 end LinfaSpec.Hier
